@@ -99,7 +99,7 @@ def heavy_script(sc, k, m, cfg, rnd, light=False):
     if light:
         C.full_script(sc, k, m, cfg, rnd, n_hist=2, n_pairs=6, n_strings=6, limit=8, sweep=(M.repr_bits(m.repr) == 8))
     else:
-        C.full_script(sc, k, m, cfg, rnd, n_hist=8, n_pairs=24, n_strings=24, limit=64)
+        C.full_script(sc, k, m, cfg, rnd, n_hist=8, n_pairs=24, n_strings=24, limit=64, ns_cap=240)
     if E.enabled(cfg, "range") and m.n <= (4 if light else 8):
         trip = [(i, j, ["l", "n", "b", "collect"]) for i in range(m.n) for j in range(m.n)]
         C.sc_range(sc, k, m, cfg, trip, ref=False)
